@@ -2658,14 +2658,15 @@ class LlcRun(object):
                         "%s: the listen thread of the %s server ended after hostile PDUs although the link controller was "
                         "still running (it asked the peer for the next frame afterwards)" % (pos, name), case)
         returned = st["returned"]
-        if finished and not returned and via == "mac" and st["llc"] is not None:
-            try:
-                st["llc"].terminate(reason="harness cleanup")
-            except BaseException:
-                pass
+        # an exception injected by the line budget may have by-passed a `with lock:` of the stack (seen with CPython
+        # 3.12: raised at a `try:` line the enclosing with-block's __exit__ is skipped), so after a step verdict the
+        # link controller of this case is not touched again and its threads are not waited for
+        clean = finished and not st.get("step")
+        if clean and not returned and via == "mac" and st["llc"] is not None:
+            self.cleanup_terminate(st["llc"])
         t_run = real_time.time()
         threads = list(STARTED)
-        left = join_all(threads, 6.0) if finished else [t for t in threads if t.is_alive()]
+        left = join_all(threads, 6.0) if clean else [t for t in threads if t.is_alive()]
         R.count("threads_started", len(threads))
         R.count("threads_finished", len(threads) - len(left))
         R.max("join_ms", int((real_time.time() - t_run) * 1000))
@@ -2684,6 +2685,7 @@ class LlcRun(object):
         for name, e in escapes:
             p2 = ("snep-client" if name.startswith("snep") else "handover-client" if name.startswith("ho-") else "llc-socket")
             if isinstance(e, StepBound):
+                st["step"] = True
                 try:
                     step_violation(R, p2, e, case)
                 except AbortPart as e2:
@@ -2711,6 +2713,22 @@ class LlcRun(object):
         if st["abort"] is not None and "replay" not in case:
             raise st["abort"]
         return hp
+
+    def cleanup_terminate(self, llc):
+        """llc.terminate() for a run loop that ended with an exception; never in the main thread (a lock of the stack
+        that was left locked would block the shard)"""
+        def body():
+            try:
+                llc.terminate(reason="harness cleanup")
+            except BaseException:
+                pass
+        t = threading.Thread(target=body, name="vf-cleanup", daemon=True)
+        t.start()
+        if t in STARTED:
+            STARTED.remove(t)
+        t.join(3.0)
+        if t.is_alive():
+            self.R.count("cleanup_terminate_stuck")
 
     def supervise(self, runner, pos, case):
         """wait for the thread that runs llc.run() / clf.connect(); -> True when it ended.  Wall-clock only decides
@@ -2827,6 +2845,7 @@ class LlcRun(object):
                     R.count("llc_run_returned")
                     R.count("llc_run_returned_connect")
         except StepBound as e:
+            st["step"] = True
             step_violation(R, pos, e, case)
         except Bound as e:
             R.violation("hang/%s/no-return-within-turn-bound" % pos, "%s did not return: %s" % (pos, e), case)
